@@ -501,6 +501,7 @@ From NV Require Import Model.Layout Model.Hull Gen.OperationsInternal Proofs.Gen
 From NV Require Import Model.InsertKnot Gen.UtilitiesB Proofs.GenTieCheckParams.
 From NV Require Import Model.Fit Gen.PreludeExt2 Gen.Fitting Gen.FittingB Proofs.GenTieFit Proofs.GenTieFitB.
 From NV Require Import Proofs.GenTieFitSurf.
+From NV Require Import Gen.FittingC Proofs.GenTieApprox.
 From NV Require Import Gen.PreludeExt2 Gen.LinalgB Proofs.GenTieLinAlgB.
 From NV Require Import Model.Geom2D Proofs.GenTieLinAlgSqrt.
 
